@@ -102,6 +102,41 @@ def run(ctx, facts):
                 continue
             access = [c for c in b.calls if c.kind in ("param_trait_method", "trait_method_unresolved") and c.name in ACCESS_FNS]
             panics = [(c, is_panic(c)) for c in b.calls if is_panic(c) and not b.is_cleanup(c.b)]
+            # run-time checks that panic in every build profile: division / remainder by a divisor that is not a constant, bounds checks
+            class _A:      # an assert terminator presented like a call site
+                def __init__(self, blk, t):
+                    self.point, self.span, self.macro, self.b = b.term_point(blk), t["span"], t.get("macro", []), blk
+            for blk in range(len(b.blocks)):
+                t = b.term(blk)
+                if t["k"] == "assert" and not b.is_cleanup(blk):
+                    msg = str(t.get("msg", ""))
+                    if msg.startswith("DivisionByZero(") or msg.startswith("RemainderByZero("):
+                        # the asserted condition is `divisor == 0` (expected false): constant non-zero divisors never fire
+                        from .affine import evaluator, TOP
+                        ev = evaluator(b)
+                        cl = op_root(t["cond"]) if "cond" in t else None
+                        const_div = False
+                        for pt0, kind0, data0 in b.defs.get(cl, []) if cl is not None else []:
+                            if kind0 == "assign" and data0["rv"].get("bin") in ("Eq", "Ne"):
+                                fs = [ev.operand(data0["rv"]["a"]), ev.operand(data0["rv"]["b"])]
+                                nz = [f for f in fs if f is not TOP and f.is_const() and f.c != 0]
+                                zs = [f for f in fs if f is not TOP and f.is_const() and f.c == 0]
+                                if nz and zs:
+                                    const_div = True
+                        # ... and neither does a divisor that a dominating comparison shows to be non-zero
+                        guarded = False
+                        if not const_div:
+                            from .affine import ne0_at
+                            for pt0, kind0, data0 in b.defs.get(cl, []) if cl is not None else []:
+                                if kind0 == "assign" and data0["rv"].get("bin") in ("Eq", "Ne"):
+                                    for o in (data0["rv"]["a"], data0["rv"]["b"]):
+                                        f = ev.operand(o)
+                                        if f is not TOP and not f.is_const() and ne0_at(b, b.term_point(blk), f) is not None:
+                                            guarded = True
+                        if not const_div and not guarded:
+                            panics.append((_A(blk, t), "attempt to divide by zero (%s)" % msg))
+                    elif msg.startswith("BoundsCheck"):
+                        panics.append((_A(blk, t), "index out of bounds (%s)" % msg[:60]))
             bad = None
             if access:
                 starts = []
